@@ -19,6 +19,8 @@ impl<'de> Reader<'de> for Read<'de> {
     #[verifier::external_body] fn slice_unchecked(&self, start: usize, end: usize) -> (r: &'de [u8]) { unimplemented!() }
     #[verifier::external_body] fn as_u8_slice(&self) -> (r: &'de [u8]) { unimplemented!() }
     #[verifier::external_body] fn check_utf8_final(&self) -> (r: Result<()>) { unimplemented!() }
+    #[verifier::external_body] fn next_invalid_utf8(&self) -> (r: usize) { unimplemented!() }
+    #[verifier::external_body] fn check_invalid_utf8(&mut self) { unimplemented!() }
     #[verifier::external_body] fn slice_ref(&self, subset: &'de [u8]) -> (r: JsonSlice<'de>) { unimplemented!() }
 }
 impl<'a> Read<'a> {
